@@ -1267,6 +1267,27 @@ def check_reference(ctx, spec, ref):
             for pn, o0 in c0.progs.items():
                 if not frac_ok(float(c1.progs[pn]), float(o0), spec["outcome_bounds"] or 0.0):
                     bad.append(f"outcome of {pn} on {kk}: {float(o0)!r} -> {float(c1.progs[pn])!r} (bound +-{spec['outcome_bounds']})")
+        # ... and the box handed to the optimiser must be exactly those bounds (as a multiset of (start, lower, upper): the order of the quantities is the library's business)
+        want = []
+        for nm, prog0 in progset.programs.items():
+            for attr, b in (("unit_cost", spec["unit_cost_bounds"]), ("capacity_constraint", spec["capacity_bounds"])):
+                ts0 = getattr(prog0, attr)
+                if b and ts0.has_data:
+                    v0 = float(ts0.interpolate(np.array([yr]), method="previous")[0])
+                    want.append((v0, v0 * (1 - b), v0 * (1 + b)))
+        for kk, c0 in progset.covouts.items():
+            if spec["baseline_bounds"]:
+                want.append((float(c0.baseline), float(c0.baseline) * (1 - spec["baseline_bounds"]), float(c0.baseline) * (1 + spec["baseline_bounds"])))
+            if spec["outcome_bounds"]:
+                for pn, o0 in c0.progs.items():
+                    want.append((float(o0), float(o0) * (1 - spec["outcome_bounds"]), float(o0) * (1 + spec["outcome_bounds"])))
+        got = sorted(zip(rec["x0"].tolist(), rec["xmin"].tolist(), rec["xmax"].tolist())) if rec.get("xmin") is not None and rec.get("xmax") is not None else None
+        if got is not None and len(got) == len(want):
+            ctx.count("reconcile.box_compared")
+            for (a0, a1, a2), (b0, b1, b2) in zip(got, sorted(want)):
+                if max(abs(a0 - b0), abs(a1 - b1), abs(a2 - b2)) > 1e-9 * max(1.0, abs(b0)):
+                    bad.append(f"the optimiser was given the box ({a1!r}, {a2!r}) around {a0!r}; the caller's bounds give ({b1!r}, {b2!r}) around {b0!r}")
+                    break
         if bad:
             ctx.violation({"api": api, "case": "value-outside-the-callers-bounds"}, "reconcile moved a quantity further than the bound given for it: " + "; ".join(bad[:3]), replay)
     return key, accepted
